@@ -7,7 +7,7 @@ SPEC = {
     "n": {"quick": 30, "thorough": 200},
     "rule": "engine c30: n worlds (1-4 segments, tombstones, both storages; documents with missing and multi-valued "
             "fields); per world 4 (quick) / 6 (thorough) composite aggregations with 1-3 sources drawn from terms over "
-            "tag / tags (multi-valued) and histogram over n / m (multi-valued) / x (f64, including 0.0 and negative values) "
+            "tag / tags (multi-valued) and histogram over x (f64), y (f64, multi-valued, with -0.0, 0.0, negative values and multiples of 0.1) and sometimes n (i64: no buckets) "
             "with intervals 0.1, 0.3, 0.5, 1, 2, 3, optional stats(n) / value_count(m) sub-aggregations, random query and "
             "filter. The unpaged aggregation (size 10000) is the oracle; each aggregation is walked with 2 (quick) / 3 "
             "(thorough) page sizes from 1..5 by sending after_key back as after — half of the walks through the JSON "
